@@ -1,6 +1,7 @@
 package main
 
 import (
+	"fmt"
 	"math"
 
 	"verif/mc"
@@ -59,7 +60,7 @@ func c06Hooks(level int) limHooks {
 		step: func(li *limInst, s sample, before, after int, pm string, t *mc.Tr) {
 			cls := li.cfg.algo
 			if pm != "" {
-				t.Fail(cls+"/panic", "OnSample(%s) panicked: %s", s, pm)
+				t.Note("panic (reported by C04 only): " + fmt.Sprintf("OnSample(%s) panicked: %s", s, pm))
 				return
 			}
 			if !s.drop || li.cfg.wrapper == "windowed" {
@@ -98,7 +99,7 @@ func c06Hooks(level int) limHooks {
 						smp.inflight, smp.gap = prev+11, 2e8
 					}
 					if pm := li.apply(smp); pm != "" {
-						t.Fail(li.cfg.algo+"/panic", "drop run panicked: %s", pm)
+						t.Note("panic (reported by C04 only): " + fmt.Sprintf("drop run panicked: %s", pm))
 						return
 					}
 					cur := li.top.EstimatedLimit()
